@@ -1087,7 +1087,7 @@ func (st *State) havocAllExcept(except map[string]bool) {
 		}
 	}()
 	for name := range st.heap {
-		if name == "RO" || except[name] || strings.HasPrefix(name, "NC_") || strings.HasPrefix(name, "NCF_") {
+		if name == "RO" || except[name] || strings.HasPrefix(name, "NC_") || strings.HasPrefix(name, "NCF_") || strings.HasPrefix(name, "NCR_") || strings.HasPrefix(name, "NCS_") {
 			// (call counters count the calls made by the unit's own body: a callee cannot change them)
 			continue
 		}
